@@ -8,8 +8,8 @@ from framework import ROOT
 from props import e1util
 from props.e1util import unhex
 
-TIE = ["Nsq.Tie.Num", "Nsq.Tie.PQ"]
-PROPS = ["Nsq.Props.C04"]
+TIE = ["Nsq.Tie.Num", "Nsq.Tie.PQ", "Nsq.Tie.TickLoop"]
+PROPS = ["Nsq.Props.C04", "Nsq.Props.C04Live"]
 MAXI64 = 2 ** 63 - 1
 
 
@@ -47,6 +47,11 @@ def run(ctx):
         "from the channel's queue and message ids are unique (no other message with the same id is published "
         "meanwhile); the pre-fix two-section shape is refuted by never_early_micro_false",
         "an empty delay argument on TCP (`REQ id ` / `DPUB topic `) is the empty digit string and reads as 0",
+        "C04Live (tick-count lateness, whole tick of queueScanLoop incl. the dirty loop): clock readings and the math/rand "
+        "stream are inputs; <= 20 channels: released by the first tick whose first round reads the clock at/after the "
+        "deadline (released_by_first_tick_after_deadline); > 20 channels: released by the first such tick that selects the "
+        "channel (released_when_selected) - no deterministic tick bound exists and none is claimed; a tick ends only after "
+        "a round with at most QueueScanDirtyPercent dirty channels (dirty_loop_guarantee)",
     ]
     ctx.rule = ("numeric: generated spellings (0, 1, boundary±1, max, 2^63±1, 2^64±k, 40 digits, leading zeros, "
                 "signs, spaces, hex/exponent/underscore/unicode digits, empty, one wrong byte) through the real "
@@ -57,6 +62,8 @@ def run(ctx):
                 "operation line; non-trivial = not a plain parse error / no-op")
     # 1-2 regenerate, build, audit
     gen_ok, _ = ctx.gen("e1_codec")
+    gen_ok2, _ = ctx.gen("e2_tick")      # statement order of the whole queueScanLoop tick (Tie.TickLoop)
+    gen_ok = gen_ok and gen_ok2
     ok, log = ctx.lean_build(TIE + PROPS)
     if not ok:
         ctx.lean_obligation_failed("lake build " + " ".join(TIE + PROPS), log[-1500:])
@@ -94,6 +101,7 @@ def run(ctx):
     else:
         run_all(ctx, binp, corr_broken, scale=1)
         run_wall(ctx, binp, corr_broken)
+        run_refresh_leg(ctx, corr_broken)
         for b in extra_bins:
             run_all(ctx, b, corr_broken, scale=1)
             run_wall(ctx, b, corr_broken)
@@ -178,6 +186,41 @@ def run_all(ctx, binp, corr_broken, scale=1, search=False, t_end=None):
         for idx, a, b in diffs:
             ctx.log("model/impl disagree on `%s`: impl=%s model=%s" % (ops[idx][:300], a[:300], b[:300]))
             corr_broken.append("correspondence %s: %s" % (stream, ops[idx][:200]))
+
+
+def run_refresh_leg(ctx, corr_broken):
+    """The real queueScanLoop on a private NSQD whose channel set changes while its SIZE stays the same within one
+    refresh interval (channel `old` deleted, `new` created at once): on `new` an ignored in-flight message must be
+    redelivered and a deferred one delivered within refresh + 10 scans + 2.1 s (E2's `scanloop` command, shared with
+    C01: harness/e2/e2_live_test.go doScanLoop, corpus/C01/scan_loop_refresh.ops). Boundedly late; if the control
+    channel saw nothing either the run is inconclusive (a note), never a failure."""
+    import e2
+    binp = ctx.go_test_binary("nsqd", e2.HARNESS, "e2c04")
+    if not binp:
+        ctx.log("the E2 harness (scanloop leg) does not compile against the current tree")
+        corr_broken.append("scan-loop refresh leg: harness build")
+        return
+    script = os.path.join(ROOT, "corpus", "C01", "scan_loop_refresh.ops")
+    for k in range(ctx.budget(1, 3)):
+        rc, out = e2.harness_run(ctx, binp, ctx.work, "TestVerifE2Replay",
+                                 {"VERIF_E2_SCRIPT": script, "VERIF_E2_NAME": "c04refresh", "VERIF_SEED": ctx.seed + 100 * k}, 120)
+        fails, hist, done = e2.parse_log(out)
+        if done is None:
+            ctx.log("scan-loop refresh leg did not complete (rc=%s):\n%s" % (rc, out[-1200:]))
+            corr_broken.append("scan-loop refresh leg exit %s" % rc)
+            return
+        ctx.evaluations += 1
+        ctx.corr.setdefault("scan_loop_refresh", []).append({"seed": ctx.seed + 100 * k, "failures": [f["key"] for f in fails]})
+        for l in out.splitlines():
+            if l.startswith("NOTE"):
+                ctx.notes.append(l)
+        late = [f for f in fails if f["key"] in ("missed-timeout", "missed-defer", "sched")]
+        for f in late:
+            ctx.violation("scanloop-refresh:" + f["key"], f["what"],
+                          "# ./check C04 --tier quick ; E2 command script (real queueScanLoop, channel replaced within one refresh interval):\n"
+                          + open(script).read())
+        if late:
+            return
 
 
 def run_wall(ctx, binp, corr_broken):
